@@ -233,6 +233,7 @@ func (c *bgpController) syncPeers(l log.Logger) error {
 				level.Error(l).Log("op", "syncPeers", "error", err, "peer", p.id, "msg", "failed to shut down BGP session")
 			}
 			p.session = nil
+			needUpdateAds = true
 		} else if p.session == nil && shouldRun {
 			// Session doesn't exist, but should be running. Create
 			// it.
